@@ -729,11 +729,7 @@ func (c *c10ctx) check(cp *c10comp, begin, length int, doRC bool) {
 			case len(rgs) > len(want):
 				cl = "spurious-hit"
 			}
-			sfx := ""
-			if !p.plain {
-				sfx = ":non-plain-pattern"
-			}
-			c.violate("RC.FindAllIndex", cp, cl, sfx, 0, -1, true, "rc pattern %q on s reports %v; mirrored matches of the pattern on rc(s)=%q are %v (start,errors)", cp.rc.String(), rg, string(c10revcomp(c.seq)), want)
+			c.violate("RC.FindAllIndex", cp, cl, "", 0, -1, true, "rc pattern %q on s reports %v; mirrored matches of the pattern on rc(s)=%q are %v (start,errors)", cp.rc.String(), rg, string(c10revcomp(c.seq)), want)
 		}
 	}
 }
